@@ -25,6 +25,8 @@
 (*     mux    a=<<idx,o1..on>>   (Options / Discrete / Uniform)                  *)
 (*     add sub mul min max       a=<<x,y>>     neg abs  a=<<x>>                   *)
 (*     ite    a=<<c,x,y>>        (x if c else y -- lifted call)                  *)
+(*     sel2   a=<<iu,i,elements>> c=<<m>>  (indexing a Uniform over containers)  *)
+(*     pick   a=<<x,others>>     (attribute of a random vector)                  *)
 (*   roots : node ids in the order of Scenario.dependencies                      *)
 (*   outs  : node ids whose values make up the scene (params, object properties) *)
 (*   reqs  : sequence of [c |-> condition tree, p |-> <<num,den>>]               *)
@@ -82,6 +84,15 @@ Det(q, n, v) ==
     [] kd = "neg" -> -v[a[1]]
     [] kd = "abs" -> Abs(v[a[1]])
     [] kd = "ite" -> IF v[a[1]] # 0 THEN v[a[2]] ELSE v[a[3]]
+    \* u[i] for u = Uniform(row_1, .., row_n) over tuples / lists of length m = c[1]: a = <<index of u, i, the
+    \* n*m elements row by row>>; Python indexing (a negative i counts from the end).  Every element is an
+    \* argument, so all of them are sampled whichever is selected (a multiplexer samples all its options)
+    [] kd = "sel2" -> LET m == Node(q, n).c[1]
+                          jj == IF v[a[2]] < 0 THEN v[a[2]] + m ELSE v[a[2]]
+                      IN v[a[2 + m * v[a[1]] + jj + 1]]
+    \* an attribute (coordinate) of a random vector: the value of the first argument; the other coordinates
+    \* are arguments too, because the attribute depends on the whole vector
+    [] kd = "pick" -> v[a[1]]
 
 RECURSIVE Holds(_, _)
 Holds(t, v) ==
